@@ -185,11 +185,16 @@ CLAIMED["C17"] = dict(
          "self-test functions can return is 0 or 1 (extracted from the C sources; D2 violated it - fixed da1f043). "
          "Closed world: only self_tests.o imports the status functions; the status word is a local symbol. "
          "Correspondence: harness/drv_fips.c, 1-64 threads released by a barrier into first calls of the FIPS build "
-         "with the self tests passing / AES failing / SHA failing, then later calls.",
+         "with the self tests passing / AES failing / SHA failing, then later calls. The portable gate "
+         "fips/self_tests_generic.c (C11 atomics, different protocol shape) has its own abstract model and the same "
+         "set of theorems (Props/C17Generic.lean), tied by the same simulation check over gcc's code of the "
+         "FIPS_MODE=y arch=noarch build (tools/gen_selftest_generic.py, GenProps/SelfTestGeneric.lean: sim_ok, "
+         "closed_world_ok incl. 'only seq_cst orders / status declared atomic', fast_path_ok) and the same stress harness.",
     note="Trusted: Lean kernel + standard axioms; objdump decoding and the translator; sequential consistency for the "
          "single status word (x86-TSO is coherent per location, lock cmpxchg is a full barrier); the self-test functions "
          "are opaque calls returning a value of the extracted set; fairness is an assumption of the liveness clauses; "
-         "self_tests_generic.c (non-x86) not covered. Which entry points call isal_self_tests first is C13's subject.",
+         "the portable gate is checked on gcc's x86-64 code of the same C source (other targets' compilers are outside). "
+         "Which entry points call isal_self_tests first is C13's subject.",
     technique="Lean 4 protocol proof + verified simulation checker over translated disassembly + stress correspondence",
     engine="SelfTest", ref="5 C17")
 
